@@ -7,6 +7,9 @@ pub uninterp spec fn authentic_hash(number: int, h: Seq<u8>) -> bool;
 pub uninterp spec fn cp_authentic(idx: int, cp: Seq<u8>) -> bool;
 pub uninterp spec fn filtered_ok(n: u64) -> bool;                     // gate of update_min_filtered_block_number
 pub uninterp spec fn matched_ok(start: u64, count: u64) -> bool;      // gate of add_matched_blocks
+// C06 "the block downloaded for a matching filter is the proven-chain block at that filter's height"
+pub uninterp spec fn matched_hashes_ok(start: u64, count: u64, blocks: Seq<(Byte32, bool)>) -> bool;
+pub uninterp spec fn chain_hash_at(number: int) -> Seq<u8>;           // the hash of the proven chain's block at that height
 pub uninterp spec fn block_number_ok(n: u64) -> bool;                 // gate of update_block_number (C09)
 pub uninterp spec fn scripts_cover_ok(n: u64) -> bool;                // gate of get_scripts_hash (C03, C09)
 
@@ -106,7 +109,8 @@ impl Storage {
         requires filtered_ok(block_number) { unimplemented!() }
     #[verifier::external_body]
     pub fn add_matched_blocks(&self, start_number: u64, blocks_count: u64, matched_blocks: Vec<(Byte32, bool)>)
-        requires matched_ok(start_number, blocks_count), matched_blocks@.len() > 0 { unimplemented!() }
+        requires matched_ok(start_number, blocks_count), matched_blocks@.len() > 0,
+                 matched_hashes_ok(start_number, blocks_count, matched_blocks@) { unimplemented!() }
     #[verifier::external_body]
     pub fn update_block_number(&self, block_number: u64)
         requires block_number_ok(block_number) { unimplemented!() }
